@@ -116,6 +116,7 @@ type Config struct {
 	NameFlag string   `json:"name_flag"` // "", "=", " "
 	Name     string   `json:"name"`
 	Extra    []string `json:"extra"` // -debug -verbose -help -version
+	Fsize    int      `json:"fsize"` // > 0: the run is subject to a file-size limit (write fault injection, prlimit --fsize)
 }
 
 func (c Config) String() string { b, _ := json.Marshal(c); return string(b) }
@@ -231,6 +232,10 @@ func checkConfig(c Config) (summary string, err error) {
 		return "", err
 	}
 	cmd := exec.Command(os.Getenv("VERIF_EMERGE_BIN"), args...)
+	if c.Fsize > 0 {
+		// every write that would make a regular file larger than Fsize bytes fails (EFBIG)
+		cmd = exec.Command("prlimit", append([]string{fmt.Sprintf("--fsize=%d", c.Fsize), os.Getenv("VERIF_EMERGE_BIN")}, args...)...)
+	}
 	cmd.Dir = work
 	var buf bytes.Buffer
 	cmd.Stdout, cmd.Stderr = &buf, &buf
@@ -290,7 +295,7 @@ func checkConfig(c Config) (summary string, err error) {
 	if c.Input == "keyword" && name == "" {
 		nc = "unusable"
 	}
-	mustSucceed := validInput && outUsable && preUsable && nc == "usable"
+	mustSucceed := validInput && outUsable && preUsable && nc == "usable" && c.Fsize == 0
 	mustFail := !validInput || !outUsable || !preUsable || nc == "unusable"
 	if mustSucceed && code != 0 {
 		return summary, fmt.Errorf("the specification is valid, the name %q is usable and the output location is free, but the run fails\n%s", effective, where)
@@ -353,6 +358,8 @@ func checkConfig(c Config) (summary string, err error) {
 	return summary, nil
 }
 
+var hasPrlimit = func() bool { _, err := exec.LookPath("prlimit"); return err == nil }()
+
 var names = []string{"pkg", "P2", "über", "x_1", "func", "package", "go", "string", "nil", "len", "_", "9x", "a-b", "a b", "a/b", "../x", "pkg/", "./pkg", "", "calc", "Type", "__"}
 
 func genConfig(t *rapid.T) Config {
@@ -372,6 +379,9 @@ func genConfig(t *rapid.T) Config {
 			c.Extra = append(c.Extra, f)
 		}
 	}
+	if hasPrlimit && rapid.IntRange(0, 4).Draw(t, "writeFault") == 0 {
+		c.Fsize = rapid.SampledFrom([]int{1, 100, 600, 2000, 2901, 2902, 2903, 3500, 6000, 9000, 9800, 12000, 20000}).Draw(t, "fsize")
+	}
 	switch rapid.IntRange(0, 14).Draw(t, "info") {
 	case 0:
 		c.Extra = append(c.Extra, "-help")
@@ -383,7 +393,7 @@ func genConfig(t *rapid.T) Config {
 
 func TestConfigurations(t *testing.T) {
 	rec.Rule(rule)
-	rec.Assume("faults beyond the pre-existing state of the file system (EACCES, ENOSPC, short writes) cannot be injected here (the checks run as root, no fault-injection file system) and are not claimed; a predeclared identifier as package name may be accepted or rejected")
+	rec.Assume("write faults are injected with a file-size limit (prlimit --fsize: a write beyond the limit fails with EFBIG) when prlimit is installed; permission faults (EACCES) cannot be injected as root and are not claimed; a predeclared identifier as package name may be accepted or rejected")
 	if _, err := os.Stat(os.Getenv("VERIF_EMERGE_BIN")); err != nil {
 		t.Skip("emerge binary not built")
 	}
@@ -394,6 +404,9 @@ func TestConfigurations(t *testing.T) {
 		cls := []string{"input_" + c.Input, "pre_" + c.Pre, "name_" + nameClass(c.Name), summary}
 		if c.OutFlag != "" {
 			cls = append(cls, "out_"+c.OutState)
+		}
+		if c.Fsize > 0 {
+			cls = append(cls, "write_fault_injected")
 		}
 		rec.Case(c.String(), nt, cls...)
 		rec.Sample(c.Input+"/"+c.Pre, c)
